@@ -158,7 +158,7 @@ pub fn c04(spec: &WorldSpec, ex: &Exec) -> Option<Viol> {
     let mut p_recv_err = vec![false; np];
     let is_share = spec.op == Op::Share || matches!(spec.op, Op::Net(n) if n.starts_with("share("));
     let is_flatten = spec.op == Op::Flatten || matches!(spec.op, Op::Net(n) if n.contains("flatten"));
-    let is_foreach = matches!(spec.op, Op::ForEach(_));
+    let is_foreach = matches!(spec.op, Op::ForEach(_)) || matches!(spec.op, Op::Net(n) if n.starts_with("for_each("));
     let mut found: Option<Viol> = None;
     let mut subs_per: std::collections::HashMap<(u8, u8), u32> = Default::default();
     let q = quiescent_points(ex);
